@@ -407,6 +407,22 @@ func reqTerm(req any) uint64 {
 	return 0
 }
 
+// DuplicateKind re-injects an old request of the given kind.
+func (n *Net) DuplicateKind(kind string, idx int) *Rpc {
+	n.mu.Lock()
+	var c []int
+	for i, o := range n.old {
+		if o.Kind == kind {
+			c = append(c, i)
+		}
+	}
+	n.mu.Unlock()
+	if len(c) == 0 {
+		return nil
+	}
+	return n.Duplicate(c[idx%len(c)])
+}
+
 func copyResp(dst, src any) {
 	switch d := dst.(type) {
 	case *raft.AppendEntriesResponse:
